@@ -146,6 +146,27 @@ def c19_family(tier):
             s.append({"op": "commit"})
             s.append({"op": "restart"})
             out.append(s)
+    # the same signed bytes parked twice: first with a Bitcoin txid, then (re-inscribed while waiting, or after the first entry
+    # expired) with the zero txid; the drained transaction must see the txid of the inscription that is actually waiting
+    for gap, commit in ((1, False), (1, True), (12, False)):
+        s = [{"op": "init", "hash": "h100", "ts": 100, "height": 0},
+             {"op": "tx", "via": "deploy", "from": "s1", "to": "NULL", "ckind": "probe", "ops": [], "lc": {"fn": "none"}, "insc": "pd",
+              "idx": 0, "hash": "h1", "ts": 101, "gas": "ample", "txid": "x1", "enc": "hex"},
+             {"op": "finalise", "ts": 101, "hash": "h1", "count": 1}]
+        park = lambda txid, hh, ts, insc: {"op": "transact", "signer": "k1", "nonce": 1, "to": "c_s1_0", "ckind": "NULL", "ops": [], "chain": "own",
+                                           "insc": insc, "idx": 0, "hash": hh, "ts": ts, "txid": txid, "gas": "ample", "enc": "hex"}
+        s.append(park("x31", "h2", 102, "za"))
+        s.append({"op": "finalise", "ts": 102, "hash": "h2", "count": 0})
+        if gap > 1:
+            s.append({"op": "mine", "k": gap - 1, "ts": 103})
+        if commit:
+            s.append({"op": "commit"})
+        s.append(park("zero", "h3", 104, "zb"))
+        s.append({"op": "finalise", "ts": 104, "hash": "h3", "count": 0})
+        s.append({"op": "transact", "signer": "k1", "nonce": 0, "to": "c_s1_0", "ckind": "NULL", "ops": [], "chain": "own", "insc": "zc",
+                  "idx": 0, "hash": "h4", "ts": 105, "txid": "x33", "gas": "ample", "enc": "hex"})
+        s.append({"op": "finalise", "ts": 105, "hash": "h4", "count": 2})
+        out.append(s)
     return out
 
 
@@ -200,4 +221,40 @@ def c19_fork_family(base, tier="quick"):
         s += [x, f]
     s += [{"op": "commit"}, {"op": "restart"}]
     out.append(s)
+    return out
+
+
+def legacy_id_collision(base):
+    """known finding D17: two signers send the same (nonce, target, data) while the signing hash is the transaction identity."""
+    s = [{"op": "init", "hash": "h100", "ts": 100, "height": base}]
+    for k, signer in enumerate(("k1", "k2")):
+        s.append({"op": "transact", "signer": signer, "nonce": 0, "to": "dead", "ckind": "NULL", "ops": [], "chain": "own", "insc": "lg%d" % k, "idx": k,
+                  "hash": "h201", "ts": 101, "txid": "x%d" % (501 + k), "gas": "ample", "enc": "hex"})
+    s.append({"op": "finalise", "ts": 101, "hash": "h201", "count": 2})
+    s.append({"op": "commit"})
+    return [s]
+
+
+def c06_gas_overflow_family():
+    """a transaction with the saturated allowance (2^64-1) that halts burns all of it: the block's running gas total does not
+    fit 64 bits.  Receipts and block must still agree with each other (last cumulative = block gasUsed, cumulative monotone)."""
+    out = []
+    head = [{"op": "init", "hash": "h100", "ts": 100, "height": 0},
+            {"op": "tx", "via": "deploy", "from": "s1", "to": "NULL", "ckind": "cell", "ops": [], "lc": {"fn": "none"}, "insc": "go0", "idx": 0,
+             "hash": "h1", "ts": 101, "gas": "ample", "txid": "x1", "enc": "hex"},
+            {"op": "finalise", "ts": 101, "hash": "h1", "count": 1}]
+
+    def call(idx, ops, gas, tag):
+        return {"op": "tx", "via": "call", "from": "s1", "to": "c_s1_0", "ckind": "NULL", "ops": ops, "lc": {"fn": "none"}, "insc": "go%s%d" % (tag, idx),
+                "idx": idx, "hash": "h2", "ts": 102, "gas": gas, "txid": "x%d" % (10 + idx), "enc": "hex"}
+    store = [{"op": "sstore", "s": 1, "v": 1}]
+    halt = [{"op": "invalid"}]
+    for tag, txs in (("a", [(store, "ample"), (halt, "max"), (store, "ample")]), ("b", [(store, "ample"), (halt, "max")]),
+                     ("c", [(halt, "max"), (halt, "max"), (store, "ample")]), ("d", [(halt, "max"), (store, "ample")])):
+        s = list(head)
+        for i, (ops, gas) in enumerate(txs):
+            s.append(call(i, ops, gas, tag))
+        s.append({"op": "finalise", "ts": 102, "hash": "h2", "count": len(txs)})
+        s.append({"op": "commit"})
+        out.append(s)
     return out
